@@ -242,13 +242,15 @@ func (cfg Config) Build(opts ...Option) (*Logger, error) {
 		return nil, err
 	}
 
+	// Validate before opening any sink: an error return must not leave
+	// files or custom sinks open.
+	if cfg.Level == (AtomicLevel{}) {
+		return nil, errors.New("missing Level")
+	}
+
 	sink, errSink, err := cfg.openSinks()
 	if err != nil {
 		return nil, err
-	}
-
-	if cfg.Level == (AtomicLevel{}) {
-		return nil, errors.New("missing Level")
 	}
 
 	log := New(
